@@ -1,5 +1,6 @@
 ---- MODULE MC_q_match ----
 EXTENDS MCOFWire
 TheCases == MatchIn("match", MFlags2(0) \cup MFlagsCo(2) \cup MBits(BitsQ) \cup MTypes(0) \cup MVals(0), "q") \cup MatchIn("flow_mod", MFlags2(0) \cup MFlagsCo(2) \cup MBits(BitsQ) \cup MTypes(0) \cup MVals(0), "q") \cup UNION {MatchIn(k, MFlags1(0) \cup MTypes(0), "q") : k \in MatchKinds \ {"match", "flow_mod"}}
+TheRCases == {}
 TheAround == AroundOne
 ====
